@@ -19,8 +19,11 @@ package c37_test
 
 import "strings"
 
+// anyMark is an internal unit used by the loose reading only.
+const anyMark = "\x03"
+
 type rtok struct {
-	k byte // 'l' literal rune, '?' any single, '*' star, 'D' "/**/" mid, 'E' "/**" end, 'F' "/**/" end
+	k byte // 'A' anything (loose only), 'l' literal rune, '?' any single, '*' star, 'D' "/**/" mid, 'E' "/**" end, 'F' "/**/" end
 	r rune
 }
 
@@ -52,9 +55,18 @@ func refTokens(glob string, loose bool) []rtok {
 			for j < len(vs) && vs[j].is("*") {
 				j++
 			}
-			if j-i >= 2 && i > 0 && vs[i-1].is("/") && (j == len(vs) || vs[j].is("/")) {
+			switch {
+			case j-i >= 2 && i > 0 && vs[i-1].is("/") && (j == len(vs) || vs[j].is("/")):
 				ws = append(ws, vs[i], vs[i])
-			} else {
+			case j-i >= 2:
+				// a star run glued to other text: the glob library may read it
+				// as a doublestar when it starts a group alternative ("a{**/b}"),
+				// swallowing the separator after it
+				ws = append(ws, unit{s: anyMark})
+				if j < len(vs) && vs[j].is("/") {
+					j++
+				}
+			default:
 				ws = append(ws, vs[i])
 			}
 			i = j
@@ -93,6 +105,9 @@ func refTokens(glob string, loose bool) []rtok {
 					}
 				}
 			}
+		case u.is(anyMark):
+			out = append(out, rtok{k: 'A'})
+			i++
 		case u.is("*"):
 			for i < n && us[i].is("*") {
 				i++
@@ -136,6 +151,13 @@ func refMatchExact(toks []rtok, path []rune, loose bool) bool {
 					break
 				}
 				if q >= len(path) || path[q] == '/' {
+					break
+				}
+			}
+		case 'A': // loose mode only: anything at all
+			for q := p; q <= len(path); q++ {
+				if rec(t+1, q) {
+					res = true
 					break
 				}
 			}
